@@ -296,9 +296,10 @@ Proof.
       destruct (run_loop max_length sents st1) as [[rs0 st0]|] eqn:E; [|discriminate]. inversion H; subst. simpl. f_equal. eapply IH; eassumption.
 Qed.
 
-(* composition: IF the outcome of a sentence's search, decoded to categories, is the same from every coherent memo state
-   (this is what AStarEquiv.search_simulation + memo_transparent say of the search of parsing.h), THEN every
-   sentence's result in a batch is its result when parsed alone from the initial state *)
+(* composition for an ABSTRACT search function: IF the outcome of a sentence's search, decoded to categories, is the same
+   from every coherent memo state, THEN every sentence's result in a batch is its result when parsed alone from the
+   initial state.  Superseded as a property theorem by GlueMemoSearchProofs.brun_iff_alone / brun_p_deterministic, where
+   the search is the concrete one reading the memo incrementally and the premise is proved; kept as a lemma about run_loop. *)
 Theorem batch_equals_alone max_length sents st0 st rs st' :
   (forall s st1 st2, coherent st1 -> coherent st2 -> snd (search s st1) = snd (search s st2)) ->
   coherent st0 -> coherent st -> run_loop max_length sents st = Some (rs, st') ->
